@@ -1,3 +1,4 @@
+use epserde::prelude::*;
 use epsh::term::{hex, parse, unhex};
 use epsh::*;
 use std::io::{BufRead, Write};
@@ -107,6 +108,50 @@ fn real_main() {
             ["stype", i, _] => Some(format!("stype {}", i)),
             ["ser3", i, val] => Some(match parse(val) {
                 Some(t) => (sreg[i.parse::<usize>().unwrap()].ser3)(&t),
+                None => "badval".into(),
+            }),
+            ["iterretry", i, spec, val] => Some(match parse(val) {
+                Some(t) => (sreg[i.parse::<usize>().unwrap()].iter_retry)(&t, spec),
+                None => "badval".into(),
+            }),
+            // sequences of zero-sized items longer than isize::MAX (they allocate nothing): written as header + length word
+            ["zstvec", n] => Some({
+                let n: usize = n.parse().unwrap();
+                let r = epsh::catch(|| {
+                    let v: Vec<()> = vec![(); n];
+                    let mut bytes = Vec::new();
+                    v.serialize(&mut bytes).map_err(|e| format!("ser {:?}", e))?;
+                    let f = <Vec<()>>::deserialize_full(&mut std::io::Cursor::new(&bytes)).map_err(|e| format!("full {:?}", e))?;
+                    let mut al = epserde::utils::AlignedCursor::<maligned::A16>::new();
+                    std::io::Write::write_all(&mut al, &bytes).unwrap();
+                    let e = <Vec<()>>::deserialize_eps(al.as_bytes()).map_err(|e| format!("eps {:?}", e))?;
+                    let b: Box<[()]> = vec![(); n].into_boxed_slice();
+                    let mut bb = Vec::new();
+                    b.serialize(&mut bb).map_err(|e| format!("ser {:?}", e))?;
+                    let fb = <Box<[()]>>::deserialize_full(&mut std::io::Cursor::new(&bb)).map_err(|e| format!("full-boxed {:?}", e))?;
+                    Ok::<bool, String>(f.len() == n && e.len() == n && fb.len() == n)
+                });
+                match r { None => "zstvec panic".to_string(), Some(Ok(true)) => "zstvec ok".into(), Some(Ok(false)) => "zstvec differs".into(), Some(Err(s)) => format!("zstvec err {}", s.replace(' ', "_")) }
+            }),
+            // a file whose header carries minor version 0, read while the process's stderr is unwritable
+            ["quietminor", i, val] => Some(match parse(val) {
+                Some(t) => match (reg[i.parse::<usize>().unwrap()].ser)(&t) {
+                    Ok((_, mut bytes)) => {
+                        if bytes.len() >= 12 { bytes[10..12].copy_from_slice(&0u16.to_ne_bytes()); }
+                        let e = &reg[i.parse::<usize>().unwrap()];
+                        let (f_line, e_line) = unsafe {
+                            let saved = libc::dup(2);
+                            let full = libc::open(b"/dev/full\0".as_ptr() as *const libc::c_char, libc::O_WRONLY);
+                            if full >= 0 { libc::dup2(full, 2); libc::close(full); }
+                            let f_line = match e.full { Some(f) => format!("F {}", f(&bytes)), None => "F -".into() };
+                            let e_line = match e.eps { Some(f) => format!("E {}", f(&bytes, 0)), None => "E -".into() };
+                            if saved >= 0 { libc::dup2(saved, 2); libc::close(saved); }
+                            (f_line, e_line)
+                        };
+                        format!("xdeser | {} | {}", f_line, e_line)
+                    }
+                    Err(s) => format!("xdeser ser-{}", s),
+                },
                 None => "badval".into(),
             }),
             ["iter", i, val, a] => Some(match parse(val) {
